@@ -1270,6 +1270,11 @@ def _register_fn(U):
         "blake3_xof_many",
         "every byte: out[64 b + j] == UFxof(cv, block, block_len, counter + b, flags)[j] for every b < outblocks "
         "(unbounded; loop contract with the witness byte) on the avx512 and the fallback path", props=["C06", "C07"])
+    U["blake3_hash_many_fn"] = _fn(
+        "blake3_hash_many",
+        "every dispatch branch, every output byte: out[32 i + j] == UFrow(inputs[i][0..64*blocks), key[0..8), counter "
+        "(+ i iff increment_counter), flags, flags_start, flags_end, blocks)[j] for blocks <= 16 (1 and 16 are the "
+        "values blake3.c uses): all ten arguments reach the selected kernel unchanged", props=["C06"])
     U["output_chaining_value_fn"] = _fn(
         "output_chaining_value",
         "cv[0..32) == little-endian words of UFcip(self->input_cv, self->block, self->block_len, self->counter, "
